@@ -118,6 +118,12 @@ static void run_btree(char** ops, int n)
       printf(" !");
       continue;
     }
+    if (c == '*') {
+      // *<n>: re-arm a single fault: the n-th request from now is refused (repeated partial failures of one operation)
+      valloc_script(&V, VALLOC_SINGLE, V.requests + (size_t)atoi(ops[i] + 1));
+      printf(" *");
+      continue;
+    }
     if (c == 'i') {
       st = zix_btree_insert(t, &keys[k]);
       printf(" i%d:%s", k, stname(st));
@@ -174,6 +180,12 @@ static void run_hash(char** ops, int n)
     if (c == '!') {
       valloc_script(&V, VALLOC_NONE, 0);
       printf(" !");
+      continue;
+    }
+    if (c == '*') {
+      // *<n>: re-arm a single fault: the n-th request from now is refused (repeated partial failures of one operation)
+      valloc_script(&V, VALLOC_SINGLE, V.requests + (size_t)atoi(ops[i] + 1));
+      printf(" *");
       continue;
     }
     if (c == 'i') {
@@ -253,6 +265,12 @@ static void run_tree(bool dup, char** ops, int n)
     if (c == '!') {
       valloc_script(&V, VALLOC_NONE, 0);
       printf(" !");
+      continue;
+    }
+    if (c == '*') {
+      // *<n>: re-arm a single fault: the n-th request from now is refused (repeated partial failures of one operation)
+      valloc_script(&V, VALLOC_SINGLE, V.requests + (size_t)atoi(ops[i] + 1));
+      printf(" *");
       continue;
     }
     if (c == 'i') {
